@@ -393,8 +393,8 @@ class Check:
             examined += 1
 
     def _eval(self, hbin, dbin, h, env, ubre, ci, cm):
-        impl, ora, _ = self.run_impl(hbin, [h], timeout=60, env=env, ubsan_is_violation=ubre)
-        model = self.run_model(dbin, [h], timeout=60)
+        impl, ora, _ = self.run_impl(hbin, [h], timeout=int(os.environ.get('VERIF_EVAL_TIMEOUT', '300')), env=env, ubsan_is_violation=ubre)
+        model = self.run_model(dbin, [h], timeout=int(os.environ.get('VERIF_EVAL_TIMEOUT', '300')))
         im = ci(impl[0]) if ci else impl[0]
         mo = cm(model[0]) if cm else model[0]
         return im, ora[0], mo
